@@ -32,6 +32,9 @@ type stressMsg struct {
 
 const stressCallers = 3
 
+// real time; the callers only make non-blocking calls
+const stressTimeout = 10 * time.Second
+
 func runStress(c Case) (out vstat.Outcome, err error) {
 	c = norm(c)
 	writeCurrent(c)
@@ -232,12 +235,16 @@ func runStress(c Case) (out vstat.Outcome, err error) {
 	go func() { callers.Wait(); close(cdone) }()
 	select {
 	case <-cdone:
-	case <-time.After(hangTimeout):
-		h.violate("callers have not returned after %v while blocked streams are parked\n%s", hangTimeout, poolStacks())
+	case <-time.After(stressTimeout):
+		h.violate("callers have not returned after %v while blocked streams are parked\n%s", stressTimeout, poolStacks())
 	}
 	// wind down: open all gates, let things drain, then end every stream
 	close(stop)
-	deadline := time.Now().Add(hangTimeout)
+	h.hd.mu.Lock()
+	h.draining = true // close hooks no longer park
+	h.hd.mu.Unlock()
+	h.hd.releaseHooks(1 << 30)
+	deadline := time.Now().Add(stressTimeout)
 	quiet := func() bool { // nothing more is being written: counts stable
 		a := 0
 		for _, f := range allFakes() {
@@ -306,7 +313,7 @@ func runStress(c Case) (out vstat.Outcome, err error) {
 	go func() { bg.Wait(); close(bgDone) }()
 	select {
 	case <-bgDone:
-	case <-time.After(hangTimeout):
+	case <-time.After(stressTimeout):
 		h.violate("ReadStream goroutines have not returned after their streams ended")
 	}
 
